@@ -109,7 +109,7 @@ PROPS["C04"] = {
 
 
 # properties whose check is not green yet are not claimed in MANIFEST.json
-NOT_YET = ["C03", "C06", "C09", "C13", "C14", "C16"]
+NOT_YET = ["C03", "C06", "C09"]
 
 
 def select(pid, tier, seed):
@@ -306,7 +306,7 @@ PROPS["C09"] = {
         "assumed away (statement silent): an option name directly followed by another option, by `--` or by the end of the line; a value-taking option given twice",
         "f32/f64 and the wider integer types are outside the claim",
     ],
-    "harnesses": [H("c09_derive::n%d::%s" % (n, v), tier=("both" if (n == 5 or (v == "p1_exit" and n <= 5)) else "thorough"), cfg=(["vp_thorough"] if n == 6 else []), bounds="%s, every well-formed token buffer of exactly %d bytes" % (d, n), timeout=3000, mem=5.5)
+    "harnesses": [H("c09_derive::n%d::%s" % (n, v), tier=("both" if (n == 5 or (v == "p1_exit" and n <= 5)) else "thorough"), cfg=(["vp_thorough"] if n == 6 else []), bounds="%s, every well-formed token buffer of exactly %d bytes" % (d, n), timeout=3000, mem=8)
                   for n in range(0, 7)
                   for (v, d) in [("p1_exit", "unit variant"),
                                  ("p1_led", "positional u8 + Option<u8> option (-l/--lv) + flag (-v/--verbose)"),
@@ -397,6 +397,9 @@ def _c03():
                 d = dict(cfg=list(cfg), tags=["C03"], tier=("both" if n == h else "thorough"), bounds="%s: %s from ANY CliInv state; only Kani's own checks (panic, overflow, bounds, pointer validity, unchecked preconditions) are counted" % (b, k), timeout=1500, mem=6)
                 if "char" in k:
                     d["nodebug"] = True
+                if "enter" in k:
+                    d["mem"] = 12
+                    d["timeout"] = 2400
                 hs.append(H("cli_steps::" + k, **d))
     # component harnesses whose buffers have symbolic / boundary sizes
     hs += [
@@ -414,7 +417,7 @@ def _c03():
         H("c02_utf8::c02_acc_step", tags=["C03"], bounds="any accumulator state x every byte", exhaustive=True),
         H("c04_decoder::c04_decoder_step", tags=["C03"], bounds="any decoder state x every byte", exhaustive=True),
         H("c17_scalars::c17_pop_front", tags=["C03"], bounds="char_pop_front on every pair of scalars (from_u32_unchecked precondition)", exhaustive=True),
-        H("c07_tokens::c07_tokens_vs_model", tags=["C03"], bounds="in-place tokenisation of every line <= 6 bytes", timeout=900, mem=4),
+        H("c07_tokens::c07_tokens_vs_model_n6", tags=["C03"], bounds="in-place tokenisation of every line of exactly 6 bytes", timeout=900, mem=4),
         H("cli_steps::key_enter_twin", kind="twin", cfg=["vp_h0"], mem=10),
     ]
     return hs
